@@ -21,7 +21,10 @@ def misc_frames():
     out = []
     bodies = [b'', b'\x00', b'\xce', b'AMQP', b'AMQP\x00\x00\x09\x01',
               refcodec.HEARTBEAT, b'\x01\x00\x01\x00\x00\x00\x04',
-              bytes(range(256)), b'a' * 4088, b'\xce' * 17]
+              bytes(range(256)), b'a' * 4088, b'\xce' * 17,
+              # at and beyond the default maximum frame size (a larger
+              # frame-max can be negotiated: these are valid frames)
+              b'b' * 131064, b'c' * 131065, b'd' * 200000]
     for i, b in enumerate(bodies):
         for ch in (0, 1, 65535):
             data, fields = refcodec.enc_body_frame(b, ch)
